@@ -3,6 +3,7 @@ package server
 import (
 	"bytes"
 	"context"
+	"encoding/binary"
 	"errors"
 	"github.com/aldas/go-modbus-client/packet"
 )
@@ -55,11 +56,19 @@ func (m *ModbusTCPAssembler) handleNextPacket(ctx context.Context) (response []b
 
 	resp, err := m.Handler.Handle(ctx, p)
 	if err != nil {
+		code := uint8(packet.ErrUnknown)
 		var target *packet.ErrorParseTCP
 		if errors.As(err, &target) {
-			return target.Bytes(), true
+			code = target.Packet.Code
 		}
-		return packet.NewErrorParseTCP(packet.ErrUnknown, err.Error()).Bytes(), true
+		// error response must be addressed to the request it answers
+		errResp := packet.ErrorResponseTCP{
+			TransactionID: binary.BigEndian.Uint16(raw[0:2]),
+			UnitID:        raw[6],
+			Function:      raw[7],
+			Code:          code,
+		}
+		return errResp.Bytes(), true
 	}
 
 	return resp.Bytes(), true
